@@ -32,15 +32,18 @@ def is_effect(e):
     return None
 
 
-def first_effect_index(leaf):
+def first_effect_index(leaf, ctor=False):
+    """index of the first modification; in the constructor the graph is what is being built: only graph calls and
+    registry stores count there (`self._g = None` before the argument checks is not a modification of a system)"""
     for i, e in enumerate(leaf.events):
-        if is_effect(e):
+        c = is_effect(e)
+        if c and not (ctor and c[0] in ("SELF", "REGALL", "ATTR")):
             return i
     return None
 
 
-def prefix_guards(leaf):
-    k = first_effect_index(leaf)
+def prefix_guards(leaf, ctor=False):
+    k = first_effect_index(leaf, ctor)
     evs = leaf.events if k is None else leaf.events[:k]
     return [e[1] for e in evs if e[0] == "guard"]
 
@@ -74,6 +77,10 @@ def _uniq(nm):
 
 OBLIGATIONS = {
     # method: [(id, reason, [alternative reference conditions - any one implied suffices])]
+    "__init__": [   # the constructor establishes the invariant the edit methods preserve (registries start empty)
+        ("rail-not-name", "a component's rail differs from its own name", ['rail == "" or rail != source._params["name"]']),
+        ("is-source", "the roots are exactly the Sources", ["isinstance(source, Source)"]),
+    ],
     "add_source": [
         ("name-unique", "names and rails stay unique and disjoint", [_uniq('source._params["name"]')]),
         ("rail-unique", "names and rails stay unique and disjoint", ['rail == "" or ' + _uniq("rail")]),
@@ -142,7 +149,7 @@ def obligation_formulas(model, r, mname, fn):
 def c14_obligations(model, rep, r):
     rel = model.rel("system")
     total = 0
-    for mname in ("add_source", "add_comp", "change_comp", "del_comp"):
+    for mname in ("__init__", "add_source", "add_comp", "change_comp", "del_comp"):
         fn, leaves = paths(model, r, mname)
         obs = obligation_formulas(model, r, mname, fn)
         accepted = [lf for lf in leaves if lf.kind != "raise"]
@@ -156,7 +163,7 @@ def c14_obligations(model, rep, r):
             for lf in accepted:
                 if first_effect_index(lf) is None:
                     continue
-                g = prefix_guards(lf)
+                g = prefix_guards(lf, mname == "__init__")
                 good = False
                 for f in fs:
                     imp, al = implies(g, f)
@@ -176,7 +183,7 @@ def c14_obligations(model, rep, r):
                               "obligation " + oid)
             rep.instance("R1", "system.System.%s obligation %s" % (mname, oid), where, ok, "%d accepting paths" % len(accepted))
             total += 1
-    rep.floor("R1", total, 25)
+    rep.floor("R1", total, 27)
 
 
 def child_types_rule(model, rep):
@@ -294,6 +301,14 @@ def c15_effect_order(model, rep, r):
                     rep.violation("R1", "system.System.%s" % mname, "%s:%d" % (rel, lf.line),
                                   "raises %s at line %d after the system was already modified at line %s (%s): a rejected call leaves a half-applied edit" % (
                                       lf.exc, lf.line, line, describe_effect(eff)), "raise after effect: " + describe_effect(eff))
+            # warnings.warn raises under an error filter (python -W error): it must not follow a modification either
+            for i, e in enumerate(lf.events):
+                if e[0] == "warn" and k is not None and k < i:
+                    eff = lf.events[k]
+                    ok = False
+                    rep.violation("R1", "system.System.%s" % mname, "%s:%d" % (rel, e[1]),
+                                  "issues a warning at line %d after the system was already modified (%s): with warnings turned into errors the call raises and leaves a half-applied edit" % (
+                                      e[1], describe_effect(eff)), "warn after effect: " + describe_effect(eff))
             # implicit KeyError: registry deletion with a key that is not known to be present, after a modification
             for i, e in enumerate(lf.events):
                 if e[0] == "del":
